@@ -92,6 +92,10 @@ func (tbls *TBLS) Sign(_ context.Context, msgHash []byte) ([]byte, error) {
 }
 
 func (tbls *TBLS) ClassifyMsg(msgBytes []byte) (uint8, bool, error) {
+	if len(msgBytes) == 0 {
+		return 0, false, fmt.Errorf("empty message")
+	}
+
 	switch msgBytes[0] {
 	case shareDistribution:
 		return shareDistribution, false, nil
@@ -124,6 +128,11 @@ func (tbls *TBLS) Init(parties []uint16, threshold int, sendMsg func(msg []byte,
 }
 
 func (tbls *TBLS) OnMsg(msgBytes []byte, from uint16, _ bool) {
+	if len(msgBytes) == 0 {
+		tbls.Logger.Warnf("Got an empty message from %d", from)
+		return
+	}
+
 	tbls.lock.Lock()
 	defer tbls.lock.Unlock()
 
@@ -198,6 +207,9 @@ func (tbls *TBLS) KeyGen(ctx context.Context) ([]byte, error) {
 	// We then distribute the polynomial evaluations (shares) to all parties.
 	// Each party 'i' gets P(i).
 	tbls.shareDistribution(ctx, shares)
+	if err := ctx.Err(); err != nil {
+		return nil, fmt.Errorf("failed receiving shares from all parties: %v", err)
+	}
 
 	// Having received all shares, we combine all shares received from all parties by adding them.
 	// Now, the private key of each party 'i' is defined to be:
@@ -209,9 +221,15 @@ func (tbls *TBLS) KeyGen(ctx context.Context) ([]byte, error) {
 	// Instead, we commit to it and send our commitment to everyone,
 	// and wait for commitments from everyone else.
 	tbls.commitPhase(ctx, pk)
+	if err := ctx.Err(); err != nil {
+		return nil, fmt.Errorf("failed receiving commitments from all parties: %v", err)
+	}
 
 	// Now we de-commit, and wait for everyone else to de-commit thus revealing their public key.
 	tbls.revealPhase(ctx, pk)
+	if err := ctx.Err(); err != nil {
+		return nil, fmt.Errorf("failed receiving public keys from all parties: %v", err)
+	}
 	// Next, we ensure the commitments we received match the de-commitments
 	if err := tbls.validateCommitments(); err != nil {
 		return nil, err
